@@ -1265,7 +1265,7 @@ int simw_open64(const char *path, int flags, ...) { SHIM;
         else {
           if (ino < 0) {
             Inode n;
-            n.type = T_REG; n.mode = mode & 0777 & ~022u; n.uid = 1000; n.gid = 1000;
+            n.type = T_REG; n.mode = mode & 0777 & ~s.plan->umask; n.uid = 1000; n.gid = 1000;
             n.atime_s = n.mtime_s = 1600000000 + (int64_t)(s.res->sim_ns / 1000000000ull); n.atime_ns = n.mtime_ns = 0;
             n.created = true;
             ino = s.world.add(fin, n);
